@@ -42,6 +42,7 @@ def query (lines : List Str) (q : Json) : Except String Json := do
     | "importfrom" => pure (declaredAt Generated.importFromSite lines id (sl, col))
     | "legacydef" => pure (declaredAtDefLegacy lines id (sl, col))
     | "legacyimport" => pure (findIdLocLegacy lines id (sl, col) 0 true)
+    | "pre695" => pure (findIdLocPre695 lines id (sl, col) 0 true)
     | _ => throw "unknown query kind"
   pure (posToJson r)
 
